@@ -450,8 +450,13 @@ def polarity(chk: Check) -> int:
         if f is None or _only_raises(f):
             continue
         chk.saw(f)
-        cfg = CFG(f.node)
         n += 1
+        oparam = f.param_names()[1]
+        done = _polarity_by_summary(chk, f, oparam)
+        if done is not None:
+            n += done
+            continue
+        cfg = CFG(f.node)
         # returned expressions
         for r in walk_no_nested(f.node):
             if not isinstance(r, ast.Return) or r.value is None:
@@ -492,6 +497,56 @@ def polarity(chk: Check) -> int:
                        "non-False result: unequal objects would compare equal (or equal ones unequal)"
                        % (f.qualname, unparse(i.ast)[:60]), 2)
     return n
+
+
+def _polarity_by_summary(chk: Check, f, oparam: str) -> Optional[int]:
+    """loop-free deep_eq bodies: case split over the atoms (E11).  Whenever a comparison of the
+    two sides comes out as 'differ', the result must be false — however the body is spelt
+    (one and-chain, guard clauses, nested ifs, a result variable).  None: outside the fragment."""
+    from ..summaries import Outside, Summary
+    try:
+        sm = Summary(f.node)
+    except Outside:
+        return None
+    bad: Dict[Tuple[str, ...], bool] = {}
+    seen: Dict[Tuple[str, ...], ast.AST] = {}
+
+    def agree_when(k) -> Optional[bool]:
+        a, b = sm.atoms.operands[k]
+        two_sided = any(isinstance(x, ast.Name) and (x.id == oparam or "other" in x.id)
+                        for part in (a, b) if part is not None for x in ast.walk(part))
+        if not two_sided:
+            return None
+        if k[0] in ("Eq", "Is"):
+            return True
+        if k[0] == "truthy" and a is not None:
+            return _atom_polarity(a)
+        return None
+
+    for p in sm.paths:
+        if p.kind == "raise":
+            continue
+        if p.returns_none():
+            outs = [(p.facts, False)]
+        else:
+            outs = list(sm.branches(p.value, p.facts))
+        for facts, v in outs:
+            for k, val in facts.items():
+                pol = agree_when(k)
+                if pol is None:
+                    continue
+                a, b = sm.atoms.operands[k]
+                seen.setdefault(k, a if b is None else ast.Compare(left=a, ops=[ast.Eq() if k[0] == "Eq" else ast.Is()],
+                                                                    comparators=[b]))
+                bad.setdefault(k, False)
+                if v and val != pol:
+                    bad[k] = True
+    for k, e in seen.items():
+        chk.ob("R18.5", "%s:differs->False(%s)" % (f.qualname, _rk(e)), not bad[k], f.loc(),
+               "in %s, when %s says the two sides differ the function can still return a "
+               "true result: unequal objects would compare equal (or equal ones unequal)"
+               % (f.qualname, unparse(e)[:60]), 2)
+    return len(seen)
 
 
 def _rk(e: ast.AST) -> str:
